@@ -1,5 +1,5 @@
 CONSTANTS
-  TKeys <- TKeys4  Vals <- Vals2  Noise <- Noise3  RTKeys <- TKeys4  Cfgs <- Cfgs8
+  TKeys <- TKeys4  Vals <- Vals2  Noise <- Noise3  RTKeys <- TKeys4  Cfgs <- Cfgs9
   MaxBatch = 2  MaxDepth = 2
   InitsOf <- InitsT  TProbeKeys <- TProbe  TIterTable <- TIterTab
 SPECIFICATION Spec
